@@ -33,7 +33,8 @@ CHECKS = {
               "the configuration observed before the matching Enter.  TLC-emitted and simulated nestings plus seeded random "
               "nestings over real abTEM keys (dict values, keyword form, exceptions at every depth, failing constructors) are "
               "run on the real global abtem.config and the full flattened configuration after every event is validated by "
-              "ConfigTrace.tla."),
+              "ConfigTrace.tla."
+              " Growth (drift only): ConfigThreads.tla - contexts of two threads interleaving on the global configuration; TLC shows restoration holds for globally nested interleavings and disjoint keys and fails otherwise; emitted interleavings replayed with real threads."),
         technique="TLA+ refinement check (TLC) + spec-generated nestings replayed on the real config + TLC trace validation",
         design_ref="DESIGN.md 5 C34",
         note=NOTE_COMMON + " LIFO nestings only; values compared by (type, repr).",
@@ -69,7 +70,8 @@ CHECKS = {
               "(get_positions) and block-wise (lazy ensemble_blocks / eager generate_blocks), and the exact rational positions, "
               "shape and axes metadata are decided by ScanTrace.tla; probe builds at TLC-enumerated position classes (on/off "
               "pixel, negative, beyond the cell, odd/even grids) are compared with the origin probe shifted by an independent "
-              "numpy Fourier shift / roll."),
+              "numpy Fourier shift / roll."
+              " ScanHist.tla: edits (end point, sampling, gpts) on one LineScan object with the geometry clauses after every edit (named deviation SkipWhenGptsUnchanged); every emitted history is replayed on a real LineScan."),
         technique="TLA+ model of scan resolution (TLC) + TLC-enumerated scans executed on the real classes + TLC trace validation over exact rationals",
         design_ref="DESIGN.md 5 C20",
         note=NOTE_COMMON + " float32 positions are mapped to rationals with denominator <= 1024 (inexact cases skipped and counted); probe comparison tolerance 2e-5.",
@@ -92,7 +94,8 @@ CHECKS = {
               "and truncation on the model's grids; every case runs on abtem.distributions (1-D/2-D gaussians, both "
               "normalisations, negation of each, divide eager/lazy) and DistTrace.tla decides exact rational spacing, symmetry, "
               "limits, negation and partition; the Gaussian profile and the unit norm/sum are logged as deviations against an "
-              "independent evaluation and bounded by the spec."),
+              "independent evaluation and bounded by the spec."
+              " Anisotropic 2-D distributions (joint weights = outer product of the per-axis weights in the axis order of the values) and stability of an existing distribution under later creations."),
         technique="TLA+ model of the value grids (TLC) + TLC-enumerated cases executed on the real code + TLC trace validation over exact rationals",
         design_ref="DESIGN.md 5 C36",
         note=NOTE_COMMON + " exp() is evaluated by numpy in the harness (profile/norm deviations, tolerance 2e-6).",
@@ -103,7 +106,8 @@ CHECKS = {
               "every pair of edge-aligned limits (1.3e4 cases, thorough ~1e5) and checks the selected bin set against Polar.tla; "
               "the cases run on the real PolarMeasurements.integrate/integrate_radial (eager and lazy) with the one-hot ensemble "
               "over the bins, so the result decodes exactly to the summed bin set; PolarTrace.tla decides 'bins inside the "
-              "limits', 'no limits = all bins' and that edge-aligned partitions of either axis are disjoint and cover."),
+              "limits', 'no limits = all bins' and that edge-aligned partitions of either axis are disjoint and cover."
+              " Round 3: limits one bin below the first edge and inside a bin, ClampNegative deviation with Python slice semantics in PolarImpl."),
         technique="TLA+ model of the limit-to-bin algebra (TLC, exact rationals) + TLC-enumerated cases on the real code with one-hot decoding + TLC trace validation",
         design_ref="DESIGN.md 5 C13",
         note=NOTE_COMMON + " Azimuthal quantities are rationals in units of pi; the harness multiplies by math.pi when calling.",
@@ -115,7 +119,8 @@ CHECKS = {
               "these are stored as metadata of real Waves/Images/DiffractionPatterns/PolarMeasurements/RealSpaceLineProfiles/"
               "PotentialArray objects with 0-2 ensemble axes from 9 axis kinds (float32 values, units=None, private flags...), "
               "several dtypes, lazy/eager, directory/zip, written with to_zarr and read back with from_zarr; StoreTrace.tla decides "
-              "equality of type, dtype, shape/array, per-axis field trees and the metadata tree by value."),
+              "equality of type, dtype, shape/array, per-axis field trees and the metadata tree by value."
+              " Round 3: lists of 2-3 measurements saved together (ComputableList.to_zarr)."),
         technique="TLA+ codec model (TLC) + spec-generated metadata trees round-tripped through the real zarr IO + TLC trace validation",
         design_ref="DESIGN.md 5 C30",
         note=NOTE_COMMON + " Equality is by value (NumPy scalar == equal Python scalar, ndarray == equal list, tuple != list); dict keys named '_type' are outside the grammar.",
@@ -141,7 +146,8 @@ CHECKS = {
               "index-identity input decodes the exact copy map; up/down round trips (complex, batched, real with and without "
               "Nyquist content; float32 and float64), mean and reciprocal-space intensity, whole-pixel shift vs roll, "
               "composition of fractional shifts and Waves.downsample of band-limited waves (eager/lazy, against an independent "
-              "direct Fourier-series evaluation) are logged as deviations and bounded by FourierTrace.tla."),
+              "direct Fourier-series evaluation) are logged as deviations and bounded by FourierTrace.tla."
+              " Round 3: data precision differing from the configured precision."),
         technique="TLA+ index-algebra model (TLC) + TLC-enumerated shapes on the real FFT helpers with exact index decoding + TLC trace validation",
         design_ref="DESIGN.md 5 C15",
         note=NOTE_COMMON + " Numeric closeness is computed by numpy in the harness (tolerance 2e-5 single / 1e-9 double).",
@@ -178,7 +184,8 @@ CHECKS = {
               "observations (extrema, value at zero angle, extrema over the zones alpha < cutoff - half a pixel and alpha > cutoff "
               "+ half a pixel computed from an independent frequency grid, binary-ness of hard apertures, max(|CTF| - aperture)) "
               "and TransferTrace.tla decides the bounds of the statement; the harness fails (exit 2) unless every enumerated "
-              "scenario was observed."),
+              "scenario was observed."
+              " TransferHist.tla: one Aperture / CTF / envelope object evaluated, edited through its setters (energy, extent, gpts, cutoff, spreads) or copied, and evaluated again, every evaluation judged against the geometry of the current parameters (named deviation CacheAngularGrid); on a coordinate axis the soft edge must fit the axis' own angular sampling."),
         technique="TLA+ scenario enumeration and bound predicates (TLC) over fixed-point observations of the real kernels; TLC trace validation",
         design_ref="DESIGN.md 5 C23",
         note=NOTE_COMMON + " The numeric kernels are evaluated by abTEM in single precision; tolerance 2e-5. 'Half a pixel' is half of the larger angular pixel size.",
@@ -192,7 +199,8 @@ CHECKS = {
               "slicing, PlaneWave/Probe, Waves/pixelated) with the guarded hooks on; MultisliceTrace.tla validates that the "
               "MsBegin/MsConfig/MsSlice/MsDetect/MsEnd events are a run of the Multislice machine (detections exactly after the "
               "listed slices, cumulative depth) and decides plane = independent truncated run (logged deviation) and "
-              "thickness axis = cumulative thicknesses."),
+              "thickness axis = cumulative thicknesses."
+              " Round 3: frozen-phonon ensembles of 2-3 configurations kept apart, every configuration's series against its own truncated runs."),
         technique="TLA+ loop model with symbolic wave terms (TLC) + hook-event trace validation against the run machine (TLC) + numeric comparison with truncated runs",
         design_ref="DESIGN.md 5 C07",
         note=NOTE_COMMON + " Numeric closeness computed by numpy (tolerance 5e-5 of the reference maximum, single precision pipeline).",
@@ -204,7 +212,8 @@ CHECKS = {
               "AtomsEnsemble potentials x PlaneWave/Probe+scan x Waves/annular/pixelated x ensemble_mean, eager with hook events "
               "and lazy with several max_batch; MultisliceTrace.tla validates the event sequence and decides member k = "
               "independent run through the potential built from displaced configuration k, mean member = mean of members, and "
-              "that displaced positions are identical across chunkings, modes and iteration orders."),
+              "that displaced positions are identical across chunkings, modes and iteration orders."
+              " Round 3: the PRISM route (the S-matrix of every configuration reduced at the scan positions) next to PlaneWave and Probe."),
         technique="TLA+ loop model with symbolic wave terms (TLC) + hook-event trace validation (TLC) + numeric comparison with independent per-configuration runs",
         design_ref="DESIGN.md 5 C02",
         note=NOTE_COMMON + " The MsConfig fingerprints are diagnostic only; the verdict is the numeric member comparison (tolerance 5e-5).",
@@ -215,7 +224,8 @@ CHECKS = {
               "with the clauses each scenario exercises; every scenario runs through the real Fourier-space multislice with the "
               "hooks on (single precision, every 4th also double) and MultisliceTrace.tla checks, inside the run machine, that "
               "the total intensity logged after every slice never increases, that vacuum propagation of band-limited waves "
-              "conserves it, and that P(-dz) P(dz) is the identity on band-limited waves."),
+              "conserves it, and that P(-dz) P(dz) is the identity on band-limited waves."
+              " Round 3: second-order vacuum scenarios also in double precision held to 1e-7; one propagator object propagating two different waves of the same shape in place."),
         technique="TLA+ scenario model + run machine with an intensity-monotonicity action property (TLC trace validation over hook events)",
         design_ref="DESIGN.md 5 C04",
         note=NOTE_COMMON + " Intensities are logged in fixed point (1e-3 of a unit) with a 2e-5 relative slack.",
@@ -252,7 +262,8 @@ CHECKS = {
               "units 1.0, 0.5, 0.3 and 0.1, formed both by multiplication and by repeated addition (cumulative-sum drift); "
               "SlicingTrace.tla decides the observed slice of every atom against SliceOf in integer arithmetic, and bounds the "
               "logged deviations for 'potential of a union = sum of potentials' (random splits, both projections) and 'projected "
-              "potential independent of slicing' (infinite projection)."),
+              "potential independent of slicing' (infinite projection)."
+              " SlicingHist.tla: histories of inspections on one Potential object (slice-window queries for all / one element incl. the single-slice form the build uses, projection, window generation) followed by a build, with the named deviation CacheIgnoresElement; every emitted history is replayed and the build compared with a fresh one and with the sum of the per-element potentials."),
         technique="TLA+ model of slice assignment over an integer lattice (TLC) + TLC-enumerated slicings on real potentials + TLC trace validation",
         design_ref="DESIGN.md 5 C09",
         note=NOTE_COMMON + " Atoms are identified by their unique lateral position; numeric tolerance 2e-5.",
@@ -265,7 +276,8 @@ CHECKS = {
               "are instantiated on a 12 x 16 grid with real Potential objects (infinite projection throughout, finite projection "
               "and thermal sigmas for subsets, positions left outside the cell or wrapped), PotentialArray.tile and "
               "CrystalPotential; DeltasTrace.tla bounds the logged deviations translated-vs-rolled, supercell-vs-tiled and the "
-              "slice means under random sub-pixel translations."),
+              "slice means under random sub-pixel translations."
+              " Round 3: atomic columns (same element, same pixel, same slice) in DeltasImpl and in the structures."),
         technique="TLA+ exact-rational model of atom placement on the periodic grid (TLC) + TLC-enumerated classes on real potentials + TLC trace validation",
         design_ref="DESIGN.md 5 C08",
         note=NOTE_COMMON + " The convolution with the atomic form factor is checked numerically only (tolerance 5e-5).",
@@ -278,7 +290,8 @@ CHECKS = {
               "auto} x scheduler {synchronous, threads(4)}; PipelineTrace.tla decides, per scenario, equal outcome class (both "
               "succeed or raise the same exception class), type, shape (declared and computed), axes metadata, metadata, values "
               "within tolerance, an equal number of executed blocks (Block hook) under both schedulers, and that all six "
-              "variants were observed."),
+              "variants were observed."
+              " Round 3: 3 x 5 grid scan split unevenly by max_batch 2 and 4, quick tier stratified over builder x scan x potential."),
         technique="TLA+ scenario enumeration + interleaving model of block execution (TLC) + lazy/eager differential runs validated by a TLC trace spec",
         design_ref="DESIGN.md 5 C01",
         note=NOTE_COMMON + " The oracle is the eager run of the same code (a change breaking both modes identically is invisible here; C02/C06/C07 compare different code paths); dask's scheduler is trusted; tolerance 5e-5.",
@@ -302,7 +315,8 @@ CHECKS = {
               "SegmentedDetector and FlexibleAnnularDetector (+ integrate_radial) on the one-hot ensemble over all n^2 diffraction "
               "pixels at 2.1 mrad/pixel, eager and lazy, so every result decodes to the exact set of integrated pixels; "
               "DetectTrace.tla compares the decoded sets with Ring(inner, outer) computed in integer arithmetic, the split "
-              "ranges, and every flexible bin with Ring(offset + k w, offset + (k+1) w) for the width w its metadata states."),
+              "ranges, and every flexible bin with Ring(offset + k w, offset + (k+1) w) for the width w its metadata states."
+              " Round 3: adjacent ranges integrated one after the other from one pattern object; growth probe (drift only): default-limit detectors reused for other waves."),
         technique="TLA+ ring algebra on the integer frequency lattice (TLC) + one-hot decoding of the real detectors + TLC trace validation",
         design_ref="DESIGN.md 5 C12",
         note=NOTE_COMMON + " Azimuthal membership of individual segments is not modelled (only their union and uniform response).",
@@ -316,7 +330,8 @@ CHECKS = {
               "whose members hold all intensity at one frequency, eager and lazy, and block_direct runs on constant patterns "
               "for radii no pixel lies on (+- margin, both layouts, four grid parities); PatternTrace.tla decides the decoded "
               "positions, the requested parity, and blocked set = disc of the effective radius in integer arithmetic with all "
-              "other pixels unchanged."),
+              "other pixels unchanged."
+              " Round 3: masking calls on a pattern object that was masked before with wider limits."),
         technique="TLA+ index-map model of crop and shift (TLC) + one-hot decoding of real patterns + TLC trace validation",
         design_ref="DESIGN.md 5 C14",
         note=NOTE_COMMON + " Positions are converted to frequencies by the numpy.fft.fftshift layout convention, which is part of the trusted base.",
@@ -327,7 +342,8 @@ CHECKS = {
               "patterns holding a single bright pixel at every position of each axis are passed to center_of_mass and the decoded "
               "result must be Freq(n, a) in integer arithmetic with a zero other component; a random normalised pattern checks the "
               "weighted mean; integrate_gradient is applied to analytic gradients of single Fourier modes and must reproduce the "
-              "field up to a constant (logged deviation)."),
+              "field up to a constant (logged deviation)."
+              " Round 3: lazy gradients chunked along the base axes."),
         technique="TLA+ frequency-layout model (TLC) + single-bright-pixel decoding of the real center_of_mass + TLC trace validation",
         design_ref="DESIGN.md 5 C40",
         note=NOTE_COMMON + " center_of_mass returns the first moment; it is compared with the weighted mean for patterns of unit total intensity only.",
@@ -340,7 +356,8 @@ CHECKS = {
               "DiffractionPatterns, RealSpaceLineProfiles and PolarMeasurements with fixed / absent seeds, samples 1 and 3, two "
               "doses; NoiseTrace.tla decides: non-negative whole counts, mean and variance z-scores within 6 sigma of dose x "
               "signal, reproducibility, lazy = eager, independence of chunking, and that no two members with equal expectation are "
-              "bit-identical."),
+              "bit-identical."
+              " Round 3: seed 0, dose series, pairwise independence of the members of one block (standardised residuals, 6 sigma)."),
         technique="TLA+ stream-assignment model (TLC) + TLC-enumerated chunkings on the real noise transform + TLC trace validation",
         design_ref="DESIGN.md 5 C31",
         note=NOTE_COMMON + " Statistical independence is operationalised as 'no bit-identical members' plus first/second moments; the chunk-dependence clauses for a shared block seed are a recorded known finding.",
@@ -351,7 +368,8 @@ CHECKS = {
               "and a grid scan x lazy/eager: 7680 probe builds, 32 plane-wave builds); all of them (thorough) or a seeded sample of "
               "400 + all plane waves (quick) are built with the real Probe / PlaneWave and NormTrace.tla bounds, for every member of "
               "every built ensemble, sum |FFT psi|^2 - computed by numpy from the returned array - to 1 +- 3e-5, and the modulus "
-              "of un-normalised plane waves to 1 at every pixel."),
+              "of un-normalised plane waves to 1 at every pixel."
+              " Builder histories: one Probe / PlaneWave object built, edited through its attributes (energy, extent, gpts, sampling, cutoff, defocus, Cs, tilt; one or two edits) and built again."),
         technique="TLA+ scenario enumeration and bound predicates (TLC) over fixed-point observations of real builds; TLC trace validation",
         design_ref="DESIGN.md 5 C05",
         note=NOTE_COMMON + " The numeric kernel is abTEM's; TLC contributes the enumeration, coverage and the bound verdicts.",
@@ -363,7 +381,8 @@ CHECKS = {
               "(thorough) or a seeded sample of 90 (quick) are run as an ensemble and as scalar runs for every member; "
               "DecompTrace.tla decides: both raise or neither, ensemble shape, each distribution's axis metadata lists its values "
               "in order (defocus as -C10), member (i1, i2) equals the scalar run at (v1[i1], v2[i2]) with the axes located through "
-              "their metadata, and an ensemble_mean axis (after detection) equals the mean of the members."),
+              "their metadata, and an ensemble_mean axis (after detection) equals the mean of the members."
+              " Round 3: 5-member axes evaluated lazily with max_batch 2 (uneven blocks), non-zero scalar companions (tilt, Cs, defocus) next to the distributions, stratified quick tier."),
         technique="TLA+ case enumeration and acceptance predicate (TLC) over ensemble-vs-scalar differential runs; TLC trace validation",
         design_ref="DESIGN.md 5 C03",
         note=NOTE_COMMON + " Member equality uses unit-weight distributions; the weighted-mean clause is checked for unit weights only (the statement leaves the weighting convention open). Tolerance 5e-5.",
@@ -382,7 +401,8 @@ CHECKS = {
               "downsample x batching x lazy x {uninterpolated, interpolated} so every reduction path is run at every seed) run through SMatrix.reduce / "
               "SMatrixArray.reduce and compared with Probe.multislice / Probe.scan (no interpolation) or the tiled small-cell probe "
               "sent through Waves.multislice and windowed (interpolation). PrismTrace.tla decides waves, detector values, shapes and "
-              "lazy == eager."),
+              "lazy == eager."
+              " Scenario dimensions added in round 3: CTF aperture given / unset, and S-matrix objects that were inspected (len, shape, wave_vectors) and then edited through their setters (cutoff, potential) before the reduction."),
         technique="TLA+ model of the window extraction checked by TLC against the property-level spec; TLA+ scenario enumeration and acceptance predicate over PRISM-vs-multislice differential runs; TLC trace validation",
         design_ref="DESIGN.md 5 C06",
         note=NOTE_COMMON + " With interpolation only the annular detector is compared (the statement promises the window probes); without interpolation an annular detector, a FlexibleAnnularDetector and a PixelatedDetector(max_angle='cutoff') with default limits are compared with Probe.scan (bin count / pattern size included). rint ties at half pixels are avoided by the chosen positions. Tolerance 5e-5.",
@@ -399,7 +419,8 @@ CHECKS = {
               "rectangular grids; integer and fractional pixel shifts; sign; lazy), quick: seeded 60; an asymmetric probe through "
               "vacuum with and without tilt; TiltTrace.tla decides per ensemble member: decoded integer shift (cross-correlation) = "
               "the rational computed from the logged tangent and thickness list, tilted == shifted untilted (np.roll / Fourier "
-              "shift), tilted plane wave modulus one, lazy == eager."),
+              "shift), tilted plane wave modulus one, lazy == eager."
+              " Round 3: tilts accumulated by successive tilt transforms on already tilted waves, stratified quick tier."),
         technique="TLA+ model of tilt accumulation and kernel axis layout checked by TLC against the property-level spec; TLA+ scenario enumeration; TLC trace validation of tilted-vs-untilted differential runs with exact rational shifts",
         design_ref="DESIGN.md 5 C39",
         note=NOTE_COMMON + " Tolerance 5e-5 (float32). The plane-wave modulus clause is weak in abTEM (a tilted PlaneWave has only the k = 0 component, which the ramp leaves unchanged).",
@@ -415,7 +436,8 @@ CHECKS = {
               "layouts x 3^2 samplings x 3^2 sigmas. Conformance: 320 scenarios enumerated by TLC (DP targets uniform / one / two "
               "samplings / gpts smaller, larger, same x 4 grids x all-zero member x lazy; image targets same gpts / own sampling / "
               "gpts smaller, larger, mixed / finer, coarser sampling x 4 grids x real, complex x lazy; source-size layouts ss / oss / "
-              "sos / sso x sigma small / anisotropic / wider than the scan x 3 integration ranges x lazy), quick: seeded 120."),
+              "sos / sso x sigma small / anisotropic / wider than the scan x 3 integration ranges x lazy), quick: seeded 120."
+              " Round 3: stacks of 17 x 19 patterns of 32 x 32 and 5 x 5 patterns of 128 x 96, stratified quick tier."),
         technique="TLA+ model of the sigma-to-axis bookkeeping checked by TLC; TLA+ scenario enumeration and acceptance predicate; TLC trace validation of runs on real measurement objects",
         design_ref="DESIGN.md 5 C16",
         note=NOTE_COMMON + " Tolerance 5e-5. The target-grid clause for a requested sampling is only applied where the statement needs it (same grid); spline interpolation is outside the statement.",
@@ -445,7 +467,8 @@ CHECKS = {
               "sigma x partial occupancy x g_max x lazy (160 scenarios from TLC, quick: one per crystal + 10): BlochTrace.tla decides "
               "observed condition = lattice sum, F(-h) = conj F(h), every reflection with L(h) = 0 has |F| below tolerance (computed "
               "with the filter off), the table built with the crystal's centering holds exactly the allowed reflections, a lattice "
-              "translation of all atoms leaves F unchanged, the reconstructed potential is real, lazy == eager."),
+              "translation of all atoms leaves F unchanged, the reconstructed potential is real, lazy == eager."
+              " Round 3: centering = 'auto' (no reflection left out may carry a structure factor), crystals with one species on a centred sub-lattice, few-kB dask chunk-size."),
         technique="TLA+ lattice-sum specification of reflection conditions with an implementation-shaped model checked by TLC; TLC trace validation of structure factors of real crystals against the lattice sum",
         design_ref="DESIGN.md 5 C27",
         note=NOTE_COMMON + " Periodicity of the reconstructed potential is inherent in the discrete Fourier synthesis and is not separately observed. Tolerance 5e-5 (double precision).",
@@ -457,7 +480,8 @@ CHECKS = {
               "Conformance: 640 scenarios from TLC (10 crystals x 4 orientations x 2 energies x 2 sg_max x 2 g_max x both Bloch "
               "equations; quick: one per crystal + 6), thickness list (0, 37, 120, 455.5 A): BlochTrace.tla decides sum of intensities "
               "= 1 per thickness, zero thickness = direct beam, structure matrix Hermitian, lazy == eager, |S[:, 0]|^2 of the "
-              "matrix-exponential scattering matrix = the eigendecomposition intensities."),
+              "matrix-exponential scattering matrix = the eigendecomposition intensities."
+              " Round 3: thickness lists descending, unsorted and with a repeated entry."),
         technique="TLA+ model of the structure-factor lookup preconditions checked by TLC; TLA+ scenario enumeration and acceptance predicate; TLC trace validation of dynamical diffraction runs",
         design_ref="DESIGN.md 5 C26",
         note=NOTE_COMMON + " Known finding C26-tilted-M-matrix: off the zone axis the two paths differ by ~1e-4 and sums deviate by up to 3e-4. Tolerance 5e-5 (double precision).",
